@@ -244,6 +244,8 @@ class Comparer:
                 self.long[">100"] += 1
             if n in (100, 101):
                 self.long[str(n)] += 1
+            if len(it[0]) <= 100 < n:
+                self.long["chars<=100<bytes"] += 1
         if gi == items and gs == sg:
             return
         # --- items: exactly one per present path, nothing else
@@ -441,7 +443,8 @@ def run(prop, tier):
                       "paths_by_family": dict(fam), "paths_by_leaf": dict(kinds),
                       "absent_paths_checked": dict(collections.Counter(p[1] for p in cmp_.absent)),
                       "names_over_100_bytes": cmp_.long[">100"], "names_of_100_bytes": cmp_.long["100"],
-                      "names_of_101_bytes": cmp_.long["101"], "order_drift_instances": cmp_.order_drift,
+                      "names_of_101_bytes": cmp_.long["101"],
+                      "names_of_at_most_100_chars_and_over_100_bytes": cmp_.long["chars<=100<bytes"], "order_drift_instances": cmp_.order_drift,
                       "violations_by_key": dict(cmp_.by_key), **stats})
     for prog in progs[:2]:
         for inst, root, ri, k, m in prog.instances():
